@@ -36,7 +36,7 @@ DAE(e, D) ==
       [] e.k \in {"list", "tuple", "set"} -> SeqAll(e.es, LAMBDA a : DAE(a, D))
       [] e.k = "index"  -> DAE(e.o, D) /\ DAE(e.i, D)
       [] e.k = "qdef"   -> DAE(e.l, D) /\ DAE(e.r, D)
-      [] e.k = "fstr"   -> SeqAll(e.parts, LAMBDA p : IF p \in STRING THEN TRUE ELSE DAE(p, D))
+      [] e.k = "fstr"   -> SeqAll(e.parts, LAMBDA p : DAE(p, D))
       [] e.k = "range"  -> DAE(e.a, D) /\ DAE(e.b, D) /\ DAE(e.step, D)
 
 \* names a parameter list binds (a name may be written "fin x")
